@@ -53,6 +53,9 @@ def run(ctx):
     ck.rule('C01-D5', 'every processed item is finalised: each result handler stores a status or raises for every script '
                       'action, every response branch ends in a handler, and the processors end in a catch-all skip')
 
+    ck.rule('C01-D6', 'a URL that is requested without having been checked out of the URL table (the target of a redirect followed '
+                      'inside one item) is registered in, or looked up in, the URL table')
+
     # ------------------------------------------------------------------ D1
     us = repo.cls(MODEL + ':URLString')
     qu = repo.cls(MODEL + ':QueuedURL')
@@ -379,3 +382,54 @@ def run(ctx):
     pt = repo.func('wpull.application.tasks.download:ProcessTask.process')
     ck.expect(any(isinstance(a, ast.Assert) and norm_text(a.test) == 'session.is_processed' for a in walk_no_nested(pt.node)), 'C01-D5', pt.qual,
               'assert session.is_processed after the processor', 'ProcessTask no longer asserts that the item was finalised', pt.loc())
+
+    # ------------------------------------------------------------------ D6
+    _d6_redirect_hops(ctx)
+
+
+TABLE_API = {'add_child_url', 'add_url', 'add_one', 'add_many', 'contains', 'get_one'}
+
+
+def _d6_redirect_hops(ctx):
+    """The item's own URL is unique by the table (D1) and handed out once (D3).  The fetch loop however goes on with whatever the
+    redirect tracker names next, inside the same item: that URL is requested `exactly once` only if the table hears of it - it is
+    added (so a link to it is ignored as a duplicate) or looked up (so a URL already fetched is not fetched again).  Searched: the
+    loop body itself, the verdict method, and what the redirect branch of the response handler reaches (resolved callees, depth 3);
+    the document branch (scraped links are added there) does not count."""
+    repo, ck, res = ctx.repo, ctx.check, ctx.res
+    ws = repo.cls('wpull.processor.web:WebProcessorSession')
+    pl = ws.methods.get('_process_loop')
+    hr = ws.methods.get('_handle_response')
+    if pl is None or hr is None:
+        raise AnalysisError('WebProcessorSession: _process_loop/_handle_response not found')
+    loops = [n for n in walk_no_nested(pl.node) if isinstance(n, ast.While)]
+    if len(loops) != 1 or not any(U.attr_name(c) == 'next_request' for c in U.calls(loops[0])):
+        raise AnalysisError('WebProcessorSession._process_loop: loop over next_request() not recognised')
+    # statements that run for a redirect hop
+    roots = [(pl, st) for st in loops[0].body]
+    branch = None
+    for n in walk_no_nested(hr.node):
+        if isinstance(n, ast.If) and any(U.attr_name(c) == 'is_redirect' for c in U.calls(n.test)):
+            branch = n
+            break
+    if branch is None:
+        raise AnalysisError('WebProcessorSession._handle_response: redirect branch not recognised')
+    roots += [(hr, st) for st in branch.body]
+    seen, hits = set(), []
+    todo = [(f, st, 0) for f, st in roots]
+    skip = {'_fetch_one'}         # its response handling is entered through the redirect branch only
+    while todo:
+        f, node, d = todo.pop()
+        for c in U.calls(node):
+            an = U.attr_name(c) or (c.func.id if isinstance(c.func, ast.Name) else None)
+            if an in TABLE_API:
+                hits.append('%s: %s' % (f.qual.split(':')[-1], norm_text(c)[:50]))
+            if d >= 3 or an in skip:
+                continue
+            for g in res.callee_funcs(f, c, allow_name=False, count=False):
+                if g.qual not in seen and g.qual.startswith('wpull.processor.'):
+                    seen.add(g.qual)
+                    todo.append((g, g.node, d + 1))
+    ck.expect(bool(hits), 'C01-D6', pl.qual, 'the next hop of a redirect is registered or looked up in the URL table',
+              'the loop requests the redirect target inside the same item and the URL table never hears of it: a page that is linked '
+              'and is also the target of a same-host redirect is requested twice (once as its own item, once as the hop)', pl.loc(loops[0]))
